@@ -258,21 +258,25 @@ def writeback(d, K, col, X, argmap, call, x, wbv, pos, n_d, pre, post):
         written = stw[argmap['e' + c].uid].read(list(w['idx']))
         col.eq(f'writeback/store{q}_matches_unknown_map', hyps + extra, written, post[c](*w['idx']))
         col.lia(f'pec_frame/store{q}_hits_interior_edge', hyps + extra, z3.And(*spec.edge_interior(c, w['idx'], K.n)))
-    # coverage: every unknown (m', p) of the contract is stored by iteration wb = m'+1
+    # coverage: every unknown (m', p) of the contract is stored by SOME iteration of the write-back loop (witnesses tried: the loop
+    # variable equal to m'+1, m', m'+2, m'-1 -- how the loop counts is the code's business)
     mp = z3.Int('mp')
     for p in range(5):
         c, I = unknown(d, mp, p, pos)
         rng = [0 <= mp, mp <= (n_d - 1 if p == 0 else n_d - 2)]
-        hit = []
-        for w in ws:
-            if enames.get(w['arr']) != c:
-                continue
-            extra = [g for g in w['hyps'] if not any(g.eq(h) for h in hyps)]
-            sub = lambda t: z3.substitute(t, (wbv, mp + 1))
-            hit.append(z3.And(*[sub(g) for g in extra], *[sub(a) == b for a, b in zip(w['idx'], I)]))
         base_h = [h for h in hyps if not uses(h, wbv)]
-        in_range = z3.And(*[z3.substitute(h, (wbv, mp + 1)) for h in hyps if uses(h, wbv)])
-        col.lia(f'writeback/unknown_p{p}_is_stored', base_h + rng, z3.And(in_range, z3.Or(*hit) if hit else z3.BoolVal(False)))
+        alts = []
+        for wit in (mp + 1, mp, mp + 2, mp - 1):
+            hit = []
+            for w in ws:
+                if enames.get(w['arr']) != c:
+                    continue
+                extra = [g for g in w['hyps'] if not any(g.eq(h) for h in hyps)]
+                sub = lambda t, wit=wit: z3.substitute(t, (wbv, wit))
+                hit.append(z3.And(*[sub(g) for g in extra], *[sub(a) == b for a, b in zip(w['idx'], I)]))
+            in_range = z3.And(*[z3.substitute(h, (wbv, wit)) for h in hyps if uses(h, wbv)])
+            alts.append(z3.And(in_range, z3.Or(*hit) if hit else z3.BoolVal(False)))
+        col.lia(f'writeback/unknown_p{p}_is_stored', base_h + rng, z3.Or(*alts))
 
 
 def uses(t, v):
